@@ -635,3 +635,68 @@ def s12(ctx):
 def s13(ctx):
     from .c16 import q2
     return q2(ctx)
+
+
+@rule("C18", "S14", floor=20, kind="N",
+      desc="a collection is listed with the type it has now: get_type and the other readers keep nothing on the store object (same obligations as C04/B8) - the web layer keeps store objects by path, so a collection removed and created again under the same name would be listed with the type of its predecessor")
+def s14_rp(ctx):
+    from .c04 import reader_purity_obligations
+    return reader_purity_obligations(ctx)
+
+
+@rule("C18", "S15", floor=3, kind="S",
+      desc="every href built from the route prefix uses the same, slash-terminated prefix: in main() each use of "
+           "options.route_prefix (the .well-known redirects, the redirect of '/', the mount point, SCRIPT_NAME) comes after "
+           "the normalisation `if not prefix.endswith('/'): prefix += '/'` - a use of the raw option sends the client to "
+           "'/dav', which the application mounted at '/dav/' does not serve")
+def s15(ctx):
+    fi = ctx.func(WEB + ".main")
+    cfg = ctx.cfg(fi)
+    opt = fi.params[0] if fi.params else "options"
+    attr = opt + ".route_prefix"
+
+    def mentions(e):
+        return any(isinstance(x, ast.Attribute) and dotted(x) == attr and isinstance(x.ctx, ast.Load) for x in ast.walk(e))
+
+    tests, norms, uses = [], [], []
+    for n in cfg.nodes:
+        a = n.ast
+        if a is None:
+            continue
+        if n.kind == "test" and any(isinstance(x, ast.Call) and isinstance(x.func, ast.Attribute) and x.func.attr == "endswith" and dotted(x.func.value) == attr
+                                    and x.args and isinstance(x.args[0], ast.Constant) and x.args[0].value == "/" for x in ast.walk(a)):
+            tests.append(n)
+            continue
+        if n.kind == "stmt" and isinstance(a, (ast.AugAssign, ast.Assign)):
+            tg = [a.target] if isinstance(a, ast.AugAssign) else a.targets
+            if any(dotted(t) == attr for t in tg):
+                v = a.value
+                ends = (isinstance(a, ast.AugAssign) and isinstance(a.op, ast.Add) and isinstance(v, ast.Constant) and str(v.value).endswith("/")) \
+                    or (isinstance(v, ast.BinOp) and isinstance(v.op, ast.Add) and isinstance(v.right, ast.Constant) and str(v.right.value).endswith("/")) \
+                    or (isinstance(v, ast.Call) and (dotted(v.func) or "").split(".")[-1] == "ensure_trailing_slash")
+                if ends:
+                    norms.append(n)
+                    continue
+        exprs = n.exprs() if n.kind != "stmt" or not isinstance(a, (ast.FunctionDef, ast.AsyncFunctionDef, ast.ClassDef)) else [a]
+        if any(mentions(e) for e in exprs):
+            uses.append(n)
+    if not uses:
+        raise AnalysisError("main(): no use of %s found" % attr)
+    # edges on which the prefix is known to end in '/': the 'already ends with /' side of the test, the completion of the normalisation
+    blocked = []
+    for t in tests:
+        neg = isinstance(t.ast, ast.UnaryOp) and isinstance(t.ast.op, ast.Not)
+        good = "f" if neg else "t"
+        blocked.extend((t, m, l) for m, l in t.succ if l == good)
+    for a in norms:
+        blocked.extend((a, m, l) for m, l in a.succ if l != "exc")
+    r = cfg.reachable([cfg.entry], block_edges=blocked, follow_exc=False)
+    obs = []
+    for u in uses:
+        obs.append(ctx.ob(bool(norms or tests) and u.id not in r, fi.qualname, "%s:%d" % (fi.module.rel, u.lineno),
+                          "route prefix is slash-terminated at `%s`" % src(u.ast)[:40].split("\n")[0],
+                          "every path to this use passes the normalisation",
+                          "main() uses options.route_prefix at line %d (`%s`) without the trailing slash having been added: with --route-prefix=/dav "
+                          "the redirects of /.well-known/caldav, /.well-known/carddav and '/' point to '/dav', which the application mounted at "
+                          "'/dav/' answers with 404 - discovery ends at its first hop" % (u.lineno, src(u.ast)[:50].split("\n")[0])))
+    return obs
